@@ -379,6 +379,19 @@ def top_rule(ctx, r):
               % (bad_ov[0][1], bad_ov[0][0]), fn=f, loc=ov[0].loc)
     else:
         r.ok("override", "override match ⇒ returned, nothing else consulted", fn=f)
+    # ... and a verdict that does not decide lets the next stage speak: a whitelist from an ignore file does not exempt the
+    # file from the type filter (nor does "no verdict")
+    for verdict in ("None", "Whitelist"):
+        s_ = Sccp(f, call_model=mm)
+        env_ = {}
+        Sccp._write(env_, place_key(mi[0].dest), V(verdict, None))
+        s_ = s_.run([(mi[0].target, env_)])
+        if not any(c.bb in s_.exec_blocks for c in ty):
+            r.bad("types|reached", "after the ignore rules answered %s the file-type filter is not consulted any more: a file "
+                  "whitelisted by an ignore file escapes -t / -T" % verdict, fn=f, loc=mi[0].loc, construct="types")
+            break
+    else:
+        r.ok("types|reached", "ignore rules answering None / Whitelist ⇒ the type filter is still consulted", fn=f)
     for lbl, site, others in (("ignore", mi[0], ty), ("types", ty[0], [])):
         s_ = Sccp(f, call_model=mm)
         env_ = {}
